@@ -150,7 +150,7 @@ func c13PromptGate(c *Check, a *Anchors) {
 		c.Errorf("prompt-gate: no SSA for the task body")
 		return
 	}
-	pe := &PathEnum{Fn: fn, MaxRevisit: 1, Event: a.ssaLabel}
+	pe := &PathEnum{Fn: fn, MaxRevisit: revisit(), Event: a.ssaLabel}
 	pe.Name = isExitName(pe)
 	pe.Run()
 	c.Paths += len(pe.Paths)
@@ -257,7 +257,7 @@ func c13Platform(c *Check, a *Anchors) {
 		return
 	}
 	c.Fn(fb)
-	pe := &PathEnum{Fn: fn, MaxRevisit: 1}
+	pe := &PathEnum{Fn: fn, MaxRevisit: revisit()}
 	pe.Run()
 	c.Paths += len(pe.Paths)
 	var bad []string
@@ -425,7 +425,7 @@ func c13LoggerPrompt(c *Check, a *Anchors) {
 	}
 	fn := c.P.SSAFunc(fb)
 	c.Fn(fb)
-	pe := &PathEnum{Fn: fn, MaxRevisit: 1, Event: func(in ssa.Instruction) (string, string) {
+	pe := &PathEnum{Fn: fn, MaxRevisit: revisit(), Event: func(in ssa.Instruction) (string, string) {
 		if call, ok := in.(*ssa.Call); ok {
 			if f := call.Common().StaticCallee(); f != nil && f.Name() == "ReadString" {
 				return "read", "call"
@@ -485,7 +485,7 @@ func c13EnumTotal(c *Check, a *Anchors) {
 		return
 	}
 	c.Fn(fb)
-	pe := &PathEnum{Fn: fn, MaxRevisit: 1, Event: func(in ssa.Instruction) (string, string) {
+	pe := &PathEnum{Fn: fn, MaxRevisit: revisit(), Event: func(in ssa.Instruction) (string, string) {
 		if call, ok := in.(*ssa.Call); ok {
 			if b, ok := call.Common().Value.(*ssa.Builtin); ok && b.Name() == "append" {
 				if s, ok := call.Type().Underlying().(*types.Slice); ok && isNamed(s.Elem(), PkgErrors, "NotAllowedVar") {
